@@ -1,20 +1,21 @@
-\* thorough: K=5 > area 4 (the whole square is sampled)
+\* a restarted instance configured with another sample amount, and records without coordinates
+\* planted under a block's key: the count validation of loaded records ("invalid sampling result")
 SPECIFICATION Spec
 CONSTANTS
   Coords = {c0, c1, c2, c3}
-  K = 5
-  Ks = {}
+  K = 2
+  Ks = {1, 3, 5}
   Callers = {p1, p2}
-  Heights = {h1, h2}
+  Heights = {h1}
   NoCaller = NoCaller
   NoHeight = NoHeight
   EmptyHeights = {}
   OutsideHeights = {}
-  CascadeModes = {FALSE, TRUE}
+  CascadeModes = {FALSE}
   PersistOnEmpty = TRUE
   CrashForgiven = TRUE
-  MaxCalls = 3
-  MaxEnv = 2
+  MaxCalls = 4
+  MaxEnv = 3
   RecordHist = FALSE
 SYMMETRY Sym
 INVARIANTS TypeOK AvailableSound PendingStable SameCoords NoPartialPromotion SessionMutex
